@@ -13,8 +13,8 @@ Proof.
   - destruct (Htot x ltac:(set_solver)) as (y&Hy&Hxy).
     rewrite size_union by set_solver. rewrite size_singleton.
     assert (size Y = 1 + size (Y ∖ {[y]})) as ->.
-    { rewrite <- (size_singleton y), <- size_union by set_solver. f_equal.
-      apply leibniz_equiv. rewrite <- union_difference_singleton_L; [done|done]. }
+    { rewrite <- (size_singleton (C := gset positive) y), <- size_union by set_solver.
+      f_equal. by apply union_difference_singleton_L. }
     apply le_n_S, IH.
     + intros x' Hx'. destruct (Htot x' ltac:(set_solver)) as (y'&Hy'&Hxy').
       exists y'. split; [|done]. apply elem_of_difference. split; [done|].
@@ -47,4 +47,187 @@ Proof.
       apply (reach_hi _ _ p tp); [|done|done].
       apply (IH (t_lvl tp)) with tp; [lia|done|done|done]. }
   intros n Hn Hn1. apply elem_of_dom in Hn as [t Hn]. by apply (Hgen (t_lvl t) n t).
+Qed.
+
+(** ** the same function in two managers over the same levels *)
+Section two.
+Context (s1 s2 : st) (HI1 : Inv s1) (HI2 : Inv s2) (Hn : nvars s1 = nvars s2).
+
+Lemma top_level_lt u1 u2 : valid s1 u1 → valid s2 u2 →
+  (∀ a, D s1 u1 a = D s2 u2 a) → ¬ lvl_of s1 u1 < lvl_of s2 u2.
+Proof.
+  intros Hv1 Hv2 HD Hlt.
+  destruct (node_cases s1 HI1 u1 Hv1) as [[E El]|(t&Ht&Hn1&Hlo&Hl&?&Hvl&Hvh&Hhp&Hll&Hlh&Hne)].
+  { pose proof (lvl_le s2 HI2 u2 Hv2). lia. }
+  apply Hne. apply (canonical_levels s1 HI1); try done. intros a.
+  pose proof (HD (upd a (t_lvl t) true)) as HA1.
+  pose proof (HD (upd a (t_lvl t) false)) as HA0.
+  rewrite (D_step s1 HI1 u1 _ t Hv1 Ht Hn1) in HA1.
+  rewrite (D_step s1 HI1 u1 _ t Hv1 Ht Hn1) in HA0. rewrite upd_same in HA1, HA0.
+  rewrite (D_upd_above s2 HI2 u2) in HA1 by (done || lia).
+  rewrite (D_upd_above s2 HI2 u2) in HA0 by (done || lia).
+  rewrite (D_upd_above s1 HI1 (t_hi t)) in HA1 by (done || lia).
+  rewrite (D_upd_above s1 HI1 (t_lo t)) in HA0 by (done || lia).
+  destruct (D s1 (t_lo t) a), (D s1 (t_hi t) a), (D s2 u2 a), (bool_decide (u1 < 0)%Z); done.
+Qed.
+End two.
+
+Lemma top_level s1 s2 u1 u2 : Inv s1 → Inv s2 → nvars s1 = nvars s2 →
+  valid s1 u1 → valid s2 u2 →
+  (∀ a, D s1 u1 a = D s2 u2 a) → lvl_of s1 u1 = lvl_of s2 u2.
+Proof.
+  intros HI1 HI2 Hn Hv1 Hv2 HD.
+  pose proof (top_level_lt s1 s2 HI1 HI2 Hn u1 u2 Hv1 Hv2 HD).
+  pose proof (top_level_lt s2 s1 HI2 HI1 (eq_sym Hn) u2 u1 Hv2 Hv1 ltac:(intros; by rewrite HD)). lia.
+Qed.
+
+Lemma pos_part s1 s2 c1 c2 : Inv s1 → Inv s2 → valid s1 c1 → valid s2 c2 →
+  (∀ a, D s1 c1 a = D s2 c2 a) →
+  ∀ a, D s1 (Z.pos (absn c1)) a = D s2 (Z.pos (absn c2)) a.
+Proof.
+  intros HI1 HI2 Hv1 Hv2 HD a.
+  pose proof (HD (fun _ => true)) as Hs.
+  rewrite (D_all_true s1 HI1 c1 Hv1), (D_all_true s2 HI2 c2 Hv2) in Hs.
+  destruct Hv1 as [H10 Hv1'], Hv2 as [H20 Hv2'].
+  destruct (decide (0 < c1)%Z) as [Hp|Hp].
+  - rewrite bool_decide_eq_true_2 in Hs by done. symmetry in Hs. apply bool_decide_eq_true in Hs.
+    replace (Z.pos (absn c1)) with c1 by (unfold absn; lia).
+    replace (Z.pos (absn c2)) with c2 by (unfold absn; lia). apply HD.
+  - rewrite bool_decide_eq_false_2 in Hs by done. symmetry in Hs. apply bool_decide_eq_false in Hs.
+    assert (valid s1 (Z.pos (absn c1))) as V1 by (split; [done|by rewrite absn_pos]).
+    assert (valid s2 (Z.pos (absn c2))) as V2 by (split; [done|by rewrite absn_pos]).
+    pose proof (HD a) as E.
+    replace c1 with (- Z.pos (absn c1))%Z in E by (unfold absn; lia).
+    replace c2 with (- Z.pos (absn c2))%Z in E by (unfold absn; lia).
+    rewrite (D_neg s1 HI1 _ a V1), (D_neg s2 HI2 _ a V2) in E.
+    by destruct (D s1 (Z.pos (absn c1)) a), (D s2 (Z.pos (absn c2)) a).
+Qed.
+
+(** children of counterparts are counterparts *)
+Lemma kids_match s1 s2 p1 p2 t1 : Inv s1 → Inv s2 → nvars s1 = nvars s2 →
+  succ s1 !! p1 = Some t1 → t_lo t1 ≠ 0%Z → is_Some (succ s2 !! p2) →
+  (∀ a, D s1 (Z.pos p1) a = D s2 (Z.pos p2) a) →
+  ∃ t2, succ s2 !! p2 = Some t2 ∧ valid s2 (t_lo t2) ∧ valid s2 (t_hi t2) ∧
+    (∀ a, D s1 (t_lo t1) a = D s2 (t_lo t2) a) ∧
+    (∀ a, D s1 (t_hi t1) a = D s2 (t_hi t2) a).
+Proof.
+  intros HI1 HI2 Hn Ht1 Hlo1 Hs2 HD.
+  assert (V1 : valid s1 (Z.pos p1)) by (split; [done|rewrite absn_pos; eauto]).
+  assert (V2 : valid s2 (Z.pos p2)) by (split; [done|by rewrite absn_pos]).
+  pose proof (top_level s1 s2 _ _ HI1 HI2 Hn V1 V2 HD) as Hl.
+  destruct (node_cases s1 HI1 _ V1) as [[E _]|(t&Ht&Hn1&_&Hl1&Hlt1&Hvl1&Hvh1&_&Hll1&Hlh1&_)].
+  { rewrite absn_pos in E. subst p1. rewrite (inv_term _ HI1) in Ht1. injection Ht1 as <-. done. }
+  rewrite absn_pos in Ht. rewrite Ht1 in Ht. injection Ht as <-.
+  destruct (node_cases s2 HI2 _ V2) as [[_ E]|(t2&Ht2&Hn2&_&Hl2&Hlt2&Hvl2&Hvh2&_&Hll2&Hlh2&_)].
+  { lia. }
+  rewrite absn_pos in Ht2. exists t2. split_and!; try done.
+  - intros a. pose proof (HD (upd a (t_lvl t1) false)) as E.
+    rewrite (D_step s1 HI1 _ _ t1 V1) in E by (by rewrite ?absn_pos).
+    rewrite (D_step s2 HI2 _ _ t2 V2) in E by (by rewrite ?absn_pos).
+    assert (t_lvl t2 = t_lvl t1) as El by lia. rewrite El, !upd_same in E.
+    rewrite (D_upd_above s1 HI1 (t_lo t1)) in E by (done || lia).
+    rewrite (D_upd_above s2 HI2 (t_lo t2)) in E by (done || lia).
+    rewrite !bool_decide_eq_false_2 in E by lia. by rewrite !xorb_false_l in E.
+  - intros a. pose proof (HD (upd a (t_lvl t1) true)) as E.
+    rewrite (D_step s1 HI1 _ _ t1 V1) in E by (by rewrite ?absn_pos).
+    rewrite (D_step s2 HI2 _ _ t2 V2) in E by (by rewrite ?absn_pos).
+    assert (t_lvl t2 = t_lvl t1) as El by lia. rewrite El, !upd_same in E.
+    rewrite (D_upd_above s1 HI1 (t_hi t1)) in E by (done || lia).
+    rewrite (D_upd_above s2 HI2 (t_hi t2)) in E by (done || lia).
+    rewrite !bool_decide_eq_false_2 in E by lia. by rewrite !xorb_false_l in E.
+Qed.
+
+(** ** every node of a tight manager has a counterpart *)
+Definition same_held (L : positive → nat) (s1 s2 : st) : Prop :=
+  ∀ u, held L u → ∀ a, D s1 u a = D s2 u a.
+
+Section size.
+Context (L : positive → nat) (s1 s2 : st).
+Context (HI1 : Inv s1) (HI2 : Inv s2) (HC1 : Counts s1 L) (HC2 : Counts s2 L).
+Context (Hn : nvars s1 = nvars s2) (Hheld : same_held L s1 s2).
+
+Lemma counterpart n1 : reach (succ s1) (fun k => 0 < L k) n1 →
+  ∃ n2, is_Some (succ s2 !! n2) ∧ ∀ a, D s1 (Z.pos n1) a = D s2 (Z.pos n2) a.
+Proof.
+  induction 1 as [n HL Hnd|p t Hp IH Ht Hl|p t Hp IH Ht Hh].
+  - assert (held L (Z.pos n)) as Hh by (split; [done|right; by rewrite absn_pos]).
+    exists n. split; [|by apply Hheld].
+    destruct (held_valid L s2 _ HI2 HC2 Hh) as [_ ?]. by rewrite absn_pos in *.
+  - destruct IH as (p2&Hp2&HD).
+    assert (Hlo : t_lo t ≠ 0%Z) by done.
+    destruct (kids_match s1 s2 p p2 t HI1 HI2 Hn Ht Hlo Hp2 HD) as (t2&Ht2&Vl2&Vh2&Dl&Dh).
+    assert (p ≠ 1%positive) as Hp1.
+    { intros ->. rewrite (inv_term _ HI1) in Ht. injection Ht as <-. done. }
+    destruct (inv_node _ HI1 _ _ Ht Hp1) as (_&Vl1&_&Vh1&_).
+    exists (absn (t_lo t2)). split; [apply Vl2|]. by apply pos_part.
+  - destruct IH as (p2&Hp2&HD).
+    assert (p ≠ 1%positive) as Hp1.
+    { intros ->. rewrite (inv_term _ HI1) in Ht. injection Ht as <-. done. }
+    destruct (inv_node _ HI1 _ _ Ht Hp1) as (_&Vl1&_&Vh1&_).
+    assert (Hlo : t_lo t ≠ 0%Z) by apply Vl1.
+    destruct (kids_match s1 s2 p p2 t HI1 HI2 Hn Ht Hlo Hp2 HD) as (t2&Ht2&Vl2&Vh2&Dl&Dh).
+    exists (absn (t_hi t2)). split; [apply Vh2|]. by apply pos_part.
+Qed.
+
+Lemma size_le : nozero s1 → len s1 ≤ len s2.
+Proof.
+  intros Hnz. unfold len. rewrite <- !size_dom.
+  apply (rel_inj_size _ _ (fun x y => ∀ a, D s1 (Z.pos x) a = D s2 (Z.pos y) a)).
+  - intros x Hx. destruct (decide (x = 1%positive)) as [->|Hx1].
+    + exists 1%positive. split.
+      * apply elem_of_dom. rewrite (inv_term _ HI2). eauto.
+      * intros a. by rewrite (D_1 s1 HI1), (D_1 s2 HI2).
+    + destruct (counterpart x (nozero_reach s1 L HI1 HC1 Hnz x Hx Hx1)) as (y&Hy&HD).
+      exists y. split; [by apply elem_of_dom|done].
+  - intros x x' y Hx Hx' H1 H2.
+    assert (Z.pos x = Z.pos x') as E; [|by injection E].
+    apply (canonical_levels s1 HI1).
+    + split; [done|]. rewrite absn_pos. by apply elem_of_dom.
+    + split; [done|]. rewrite absn_pos. by apply elem_of_dom.
+    + intros a. by rewrite H1, H2.
+Qed.
+End size.
+
+Theorem size_determined L s1 s2 :
+  Inv s1 → Inv s2 → Counts s1 L → Counts s2 L → nozero s1 → nozero s2 →
+  nvars s1 = nvars s2 → same_held L s1 s2 → len s1 = len s2.
+Proof.
+  intros HI1 HI2 HC1 HC2 Hz1 Hz2 Hn Hh.
+  pose proof (size_le L s1 s2 HI1 HI2 HC1 HC2 Hn Hh Hz1).
+  pose proof (size_le L s2 s1 HI2 HI1 HC2 HC1 (eq_sym Hn)
+                ltac:(intros u Hu a; by rewrite (Hh u Hu a)) Hz2). lia.
+Qed.
+
+(** by variable names *)
+Lemma l2v_of_vars s1 s2 : Inv s1 → Inv s2 → vars s1 = vars s2 → lvl2var s1 = lvl2var s2.
+Proof.
+  intros HI1 HI2 E. apply map_eq. intros l. apply option_eq. intros v.
+  by rewrite <- (inv_vars _ HI1), <- (inv_vars _ HI2), E.
+Qed.
+
+Lemma denv_D s1 s2 u : Inv s1 → Inv s2 → vars s1 = vars s2 → valid s1 u → valid s2 u →
+  (∀ ρ, denv s1 u ρ = denv s2 u ρ) → ∀ a, D s1 u a = D s2 u a.
+Proof.
+  intros HI1 HI2 E Hv1 Hv2 HD a.
+  pose proof (l2v_of_vars s1 s2 HI1 HI2 E) as El.
+  set (ρ := fun x => match vars s1 !! x with Some l => a l | None => false end).
+  specialize (HD ρ). unfold denv in HD.
+  assert (Hn : nvars s1 = nvars s2) by (unfold nvars; by rewrite E).
+  rewrite (D_indep_lt s1 HI1 u a (fun l => match lvl2var s1 !! l with Some x => ρ x | None => false end)); [|done|].
+  rewrite (D_indep_lt s2 HI2 u a (fun l => match lvl2var s2 !! l with Some x => ρ x | None => false end)); [done|done|].
+  all: intros j Hj.
+  - rewrite <- Hn in Hj. rewrite <- El. apply (inv_lvls _ HI1) in Hj as [x Hx]. rewrite Hx. subst ρ. cbn.
+    apply (inv_vars _ HI1) in Hx. by rewrite Hx.
+  - apply (inv_lvls _ HI1) in Hj as [x Hx]. rewrite Hx. subst ρ. cbn.
+    apply (inv_vars _ HI1) in Hx. by rewrite Hx.
+Qed.
+
+(** two states reached from a common one with the same variable order *)
+Theorem size_same_order L s0 sa sb :
+  Stp L s0 sa → Stp L s0 sb → nozero s0 → vars sa = vars sb → len sa = len sb.
+Proof.
+  intros ((HIa&HCa&_)&Hna&Hka&Hza) ((HIb&HCb&_)&Hnb&Hkb&Hzb) Hz0 Ev.
+  apply (size_determined L); auto; [congruence|].
+  intros u Hu. destruct (Hka u Hu) as (_&Va&Da), (Hkb u Hu) as (_&Vb&Db).
+  apply denv_D; try done. intros ρ. by rewrite Da, Db.
 Qed.
